@@ -93,6 +93,32 @@ static void run_seg(const std::vector<std::vector<std::string>> &sec, std::ostre
     }
 }
 
+// FLT id cfg | keys (decimal doubles) | queries     floating-point KEY types: judged only (not modelled)
+// every key / query is printed as its order-preserving integer image so that the extracted judges apply
+template<typename F> static long long order_image(F v) {
+    double d = (double) v; int64_t b; std::memcpy(&b, &d, 8);
+    return b >= 0 ? b : (int64_t) (0x8000000000000000ull - (uint64_t) b);   // monotone in the value (no NaN)
+}
+template<typename Index, typename K>
+static void run_flt(const std::vector<std::vector<std::string>> &sec, std::ostream &out) {
+    std::vector<K> data, queries;
+    if (sec.size() > 1) for (auto &t : sec[1]) data.push_back((K) std::stod(t));
+    if (sec.size() > 2) for (auto &t : sec[2]) queries.push_back((K) std::stod(t));
+    std::sort(data.begin(), data.end());
+    omp_set_num_threads(1);
+    Index *idx = nullptr;
+    try { idx = new Index(data.begin(), data.end()); }
+    catch (const std::exception &e) { out << "B throw " << exn_kind(e) << "\n"; return; }
+    out << "B ok\nKI";
+    for (auto k : data) out << " " << order_image(k);
+    out << "\n";
+    for (auto q : queries) {
+        auto r = idx->search(q);
+        out << "QF " << order_image(q) << " " << r.pos << " " << r.lo << " " << r.hi << "\n";
+    }
+    delete idx;
+}
+
 // PLA id kbits signed eps | x:y ...   direct use of OptimalPiecewiseLinearModel<K, int64_t> (signed rank type)
 template<typename K>
 static void run_pla(const std::vector<std::vector<std::string>> &sec, std::ostream &out) {
@@ -135,6 +161,15 @@ int main(int argc, char **argv) {
             if (!done && name == #nm) { out << "C " << h[1] << "\n"; run_idx<pgm::PGMIndex<K, E, ER, F>, K>(sec, out); done = true; }
 #include "idx_configs.inc"
 #undef X
+        } else if (h[0] == "FLT") {
+#if IDX_GROUP == 0
+            const std::string &name = h[2];
+            out << "C " << h[1] << "\n";
+            if (name == "f32_e16_r4") run_flt<pgm::PGMIndex<float, 16, 4, float>, float>(sec, out);
+            if (name == "f64_e16_r4") run_flt<pgm::PGMIndex<double, 16, 4, float>, double>(sec, out);
+            if (name == "f64_e4_r0_d") run_flt<pgm::PGMIndex<double, 4, 0, double>, double>(sec, out);
+            if (name == "f32_e2_r1") run_flt<pgm::PGMIndex<float, 2, 1, float>, float>(sec, out);
+#endif
         } else if (h[0] == "PLA") {
             int kb = std::stoi(h[2]); bool sg = h[3] == "1";
 #if IDX_GROUP == 1
